@@ -98,6 +98,7 @@ fn run_case(case: &Case, ev: &Evidence) -> CaseResult {
     }
     let mut ret = Retention::default();
     let mut held: Vec<Held> = vec![];
+    let mut accepted: Vec<Vec<u8>> = vec![];
     let mut delivered_ok = 0u64;
     let mut classes: Vec<String> = vec![];
     let mut boundary = false;
@@ -273,7 +274,20 @@ fn run_case(case: &Case, ev: &Evidence) -> CaseResult {
                     continue;
                 }
                 let h = held.remove(pick(op[1], held.len()));
+                let before_ok = delivered_ok;
                 deliver(&mut w, &ret, &h, &mut delivered_ok, &mut classes, &mut boundary)?;
+                if delivered_ok > before_ok {
+                    accepted.push(h.bytes.clone());
+                }
+                // a late message that was accepted is never accepted again, whatever other epochs were looked up in between
+                if !accepted.is_empty() {
+                    let b = accepted[pick(op[2], accepted.len())].clone();
+                    match w.process(x, &b) {
+                        Ok(_) => return Err(fail("late_message_accepted_twice", format!("a late message that X had already accepted was accepted again in epoch {} (retention {retention})", w.epoch))),
+                        Err(e) if e.is_panic() => return Err(panic_failure(P, "process_incoming_message(replayed late message)", &e)),
+                        Err(_) => classes.push("replay_of_accepted_late_message_rejected".into()),
+                    }
+                }
             }
             _ => {
                 // write, drop and load X
